@@ -139,37 +139,43 @@ theorem foreign_polynomial_never_counts (cd : Codec G) (f g : List F) (hm : G)
     exact hne (sub_eq_zero.1 (hH _ this))
 
 /-- **below threshold ⇒ error**, for every padding: if fewer than `t` distinct members have a
-valid share in the list – whatever else the list contains, in any number – `Recover` returns
-"not enough shares", never a signature (and never panics). Any public polynomial. -/
+valid share in the list – whatever else the list contains, in any number – `Recover` returns an
+error ("not enough shares", or the refusal of a threshold below the polynomial's), never a
+signature and never a panic. Any public polynomial. -/
 theorem below_threshold_errors (cd : Codec G) (f : List F) (hm : G) (t n : Nat) (ht : 0 < t)
     (sigs : List Bytes) (hfew : (members cd f hm n sigs).card < t) :
-    recover cd f hm sigs t n = .errFew :=
+    recover cd f hm sigs t n = if t < f.length then .errThreshold else .errFew :=
   recover_few cd f hm t n ht sigs hfew
 
+/-- … in particular nothing is ever accepted below threshold -/
+theorem below_threshold_never_ok (cd : Codec G) (f : List F) (hm : G) (t n : Nat) (ht : 0 < t)
+    (sigs : List Bytes) (hfew : (members cd f hm n sigs).card < t) (s : Bytes) :
+    recover cd f hm sigs t n ≠ .ok s := by
+  rw [below_threshold_errors cd f hm t n ht sigs hfew]
+  split_ifs <;> simp
+
 /-- **padding never helps**: entries that are not valid shares of an in-range member can be
-added to (or removed from) a list, anywhere, without changing the outcome. -/
+added to (or removed from) a list, anywhere, without changing the outcome. Any public polynomial. -/
 theorem padding_irrelevant (cd : Codec G) (f : List F) (hm : G) (t n : Nat) (ht : 0 < t)
-    (hf : f.length ≤ t) (hc : CharGt F n) (s₁ s₂ : List Bytes)
+    (hc : CharGt F n) (s₁ s₂ : List Bytes)
     (h : ∀ e, validIdx cd f hm n e ≠ none → (e ∈ s₁ ↔ e ∈ s₂)) :
     recover cd f hm s₁ t n = recover cd f hm s₂ t n := by
-  rw [recover_eq cd f hm t n ht hf hc s₁, recover_eq cd f hm t n ht hf hc s₂,
+  rw [recover_eq_full cd f hm t n ht hc s₁, recover_eq_full cd f hm t n ht hc s₂,
     C02.members_perm_junk cd f hm n s₁ s₂ h]
 
-/-- **whatever recovery returns verifies under the group key**: a returned signature is the
-encoding of `f(0) • H(m)` – the signature the group key `f(0) • B₂` accepts (by `verify_iff`) –
-and at least `t` distinct members contributed a valid share. -/
+/-- **whatever recovery returns verifies under the group key** – for ANY public polynomial and
+any threshold (since /repo 3cdfff8 the code refuses `t < len f` itself, so no hypothesis relating
+`t` to the polynomial is needed): a returned signature is the encoding of `f(0) • H(m)` – the
+signature the group key `f(0) • B₂` accepts (by `verify_iff`) – and at least `t` distinct members
+contributed a valid share. -/
 theorem recover_ok_verifies (cd : Codec G) (hcd : ∀ p, cd.decode (cd.encode p) = some p)
-    (f : List F) (hm : G) (t n : Nat) (ht : 0 < t) (hf : f.length ≤ t) (hc : CharGt F n)
+    (f : List F) (hm : G) (t n : Nat) (ht : 0 < t) (hc : CharGt F n)
     (sigs : List Bytes) (s : Bytes) (h : recover cd f hm sigs t n = .ok s) :
     t ≤ (members cd f hm n sigs).card ∧ s = cd.encode (f.headD 0 • hm)
       ∧ blsVerifyR cd (f.headD 0) hm s = .ok := by
-  rw [recover_eq cd f hm t n ht hf hc sigs] at h
-  by_cases hq : t ≤ (members cd f hm n sigs).card
-  · rw [if_pos hq] at h
-    have hs : s = cd.encode (f.headD 0 • hm) := by injection h with h; exact h.symm
-    refine ⟨hq, hs, ?_⟩
-    rw [blsVerifyR_ok_iff, hs]; exact hcd _
-  · rw [if_neg hq] at h; cases h
+  obtain ⟨hs, _, hq⟩ := C02.recover_ok_is_group_signature cd f hm t n ht hc sigs s h
+  refine ⟨hq, hs, ?_⟩
+  rw [blsVerifyR_ok_iff, hs]; exact hcd _
 
 /-! ### non-vacuity -/
 
@@ -199,8 +205,49 @@ example : recover toyCodec [(4 : Zq 11), 3] 2
   below_threshold_errors toyCodec _ 2 2 3 (by decide) _ (by decide)
 
 open C02 in
+example : recover toyCodec [(4 : Zq 11), 3] 2
+    [[0, 2, 4], [0, 2, 4, 77], [5], [0, 0, 8], [0, 7, 10], [0, 1, 4]] 2 3 ≠ .ok [4] :=
+  below_threshold_never_ok toyCodec _ 2 2 3 (by decide) _ (by decide) _
+
+open C02 in
+/-- the input of the repaired defect 3cdfff8 (three coefficients, `t = 2`, two true shares): before
+the repair `ok [4]`, which does not verify under the group key `4`; now refused -/
+example : recover toyCodec [(4 : Zq 11), 3, 1] 2 [[0, 0, 5], [0, 1, 6]] 2 3 = .errThreshold
+    ∧ blsVerifyR toyCodec (4 : Zq 11) 2 [4] = .errInvalid := by decide
+
+open C02 in
+/-- `padding_irrelevant`: junk added in front, in the middle and behind, one entry repeated -/
+example : recover toyCodec [(4 : Zq 11), 3] 2 [[0, 2, 4], [0, 0, 3]] 2 3
+    = recover toyCodec [(4 : Zq 11), 3] 2 [[9], [0, 2, 4], [0, 0, 8], [0, 0, 3], [0, 2, 4], [0, 7, 10]] 2 3 :=
+  padding_irrelevant toyCodec [(4 : Zq 11), 3] 2 2 3 (by decide) (C09.zq_charGt 11 3 (by decide)) _ _
+    (by
+      intro e he
+      simp only [List.mem_cons, List.not_mem_nil, or_false]
+      constructor
+      · rintro (rfl | rfl) <;> simp
+      · rintro (rfl | rfl | rfl | rfl | rfl | rfl) <;>
+          first
+            | exact Or.inl rfl
+            | exact Or.inr rfl
+            | exact absurd (by decide) he)
+
+open C02 in
+/-- `other_message_never_counts`: member 2's share on the message point 3 offered for message
+point 2 -/
+example : validIdx toyCodec [(4 : Zq 11), 3] 2 3 [0, 2, 6] = none :=
+  other_message_never_counts toyCodec [(4 : Zq 11), 3] 2 3 3 [0, 2, 6] 2 (by decide) (by decide)
+    (by decide) (by decide)
+
+open C02 in
+/-- `foreign_polynomial_never_counts`: member 1's share under `g = 5 + 3x` -/
+example : validIdx toyCodec [(4 : Zq 11), 3] 2 3 [0, 1, 0] = none :=
+  foreign_polynomial_never_counts toyCodec [(4 : Zq 11), 3] [(5 : Zq 11), 3] 2
+    (fun c h => (mul_eq_zero.1 (show c * 2 = 0 from h)).resolve_right (by decide)) 3 [0, 1, 0] 1
+    (by decide) (by decide) (by decide)
+
+open C02 in
 example : blsVerifyR toyCodec (4 : Zq 11) 2 (blsSign toyCodec (4 : Zq 11) 2) = .ok :=
-  (recover_ok_verifies toyCodec toyCodec_roundtrip [(4 : Zq 11), 3] 2 2 3 (by decide) (by decide)
+  (recover_ok_verifies toyCodec toyCodec_roundtrip [(4 : Zq 11), 3] 2 2 3 (by decide)
     (C09.zq_charGt 11 3 (by decide))
     [[0, 9, 200], [0, 2, 4], [0, 2, 4, 77], [5], [0, 0, 8], [0, 0, 3]] _ (by decide)).2.2
 
